@@ -12,6 +12,9 @@
      tampers  [pos, sigacc, digacc, digeq]: one byte at pos replaced; did the matching verifier accept,
               did the params-digest check accept ("acc"/"rej"/"na"), does the digest component equal a
               recomputation over ApplicationParameters..end ("eq"/"ne"/"na" when not strictly parseable)
+     svedits  [op, need, sigacc, digacc, digeq]: a value-preserving re-encoding of the signature value (NdnPackets!SvOps)
+              applied to the wire with every length and the parameters digest fixed up; need = the value class the
+              genuine signature value was found to have ("any" when the edit needs none)
    Verdict code per record: 1 accepted, otherwise the number of the first failing clause.       *)
 EXTENDS NdnPackets, Json, IOUtils, TLCExt
 
@@ -26,6 +29,14 @@ TamperOk(c, t) ==
   /\ (g.dig = "fail" => t.digacc # "acc")
   /\ (t.digeq # "na" /\ t.digacc # "na" => (t.digacc = "acc" <=> t.digeq = "eq"))
 
+\* the edit must be one the table offers for this configuration and value class; its verdict is the table's
+SvEditOk(c, t) ==
+  \E e \in Edits(c) :
+    /\ e.op = t.op /\ e.need = t.need /\ e.op \in SvOps
+    /\ (e.sig = "reject" => ~t.sigacc)
+    /\ (e.dig = "fail" => t.digacc # "acc")
+    /\ (t.digeq # "na" /\ t.digacc # "na" => (t.digacc = "acc" <=> t.digeq = "eq"))
+
 Judge(r) ==
   LET c == r.cfg IN
   IF r.refused THEN (IF Refuses(c) THEN 1 ELSE 2)
@@ -37,6 +48,7 @@ Judge(r) ==
   ELSE IF Has(r, "ranges") /\ NeedDigest(c) /\ r.digest # <<DigestRange(c)>> THEN 7
   ELSE IF Has(r, "ranges") /\ NeedDigest(c) /\ r.dv # <<DigestValueRange(c)>> THEN 8
   ELSE IF Has(r, "tampers") /\ \E i \in 1..Len(r.tampers) : ~TamperOk(c, r.tampers[i]) THEN 9
+  ELSE IF Has(r, "svedits") /\ \E i \in 1..Len(r.svedits) : ~SvEditOk(c, r.svedits[i]) THEN 10
   ELSE 1
 
 TInit == tid \in 1..Len(Traces) /\ TLCSet(tid, Judge(Traces[tid]))
